@@ -487,9 +487,16 @@ def stepValidateBasic (s : State) (tx : Tx) : M State := do
   require (!tx.required.isEmpty) eInvalidRequest
   pure s
 
-/-- `SetPubKeyDecorator` : signer_infos must carry the required signers' keys; accounts must exist -/
+/-- addresses for which somebody can hold a signing key: the scenario accounts.  Module account
+addresses are hashes of module names; producing a key for one is a hash pre-image (cryptographic
+assumption, recorded in the trusted base). -/
+def isUserAddr (a : Addr) : Bool := decide (a < 1000)
+
+/-- `SetPubKeyDecorator` : signer_infos must carry the required signers' keys (so every required
+signer is an address somebody holds a key for); accounts must exist -/
 def stepSetPubKey (s : State) (tx : Tx) : M State := do
   require (tx.signers = tx.required) (sdkErr 8)
+  require (tx.required.all isUserAddr) (sdkErr 8)
   require (tx.required.all s.bank.hasAccount) eUnknownAddress
   pure s
 
@@ -568,6 +575,8 @@ def checkTx (order : List String) (s : State) (tx : Tx) : State × TxResult :=
 
 /-- a governance proposal message executed by the gov module in EndBlock (cached: all or nothing) -/
 def govExec (wall : Nat) (s : State) (m : Msg) : State × Bool :=
+  -- x/gov accepts a proposal message only if its signer is the gov module account
+  if m.signer ≠ some Mgov then (s, false) else
   match handle wall s m with
   | .ok (s', _) => (s', true)
   | .error _ => (s, false)
